@@ -65,7 +65,7 @@ TextVectors(m) ==
      d \in (IF Quick THEN ByName(m, "depth").dom \ {"n:250000"} ELSE ByName(m, "depth").dom), o \in ByName(m, "opener").dom}
 Vectors(m) == IF m = "dirnames" THEN NameVectors(m)
               ELSE IF m \in TextFormats THEN TextVectors(m)
-              ELSE IF m = "zbsdiff_ctl" THEN ProdUpTo(m, Len(Row(m)))
+              ELSE IF m \in {"zbsdiff_ctl", "blte_echunk"} THEN ProdUpTo(m, Len(Row(m)))
               ELSE Sparse(m) \cup Full(m)
 
 MCInit == /\ fmt \in Fmts
